@@ -142,6 +142,13 @@ func capabilitySet() *capSet {
 	}
 }
 
+// Clear empties the set.
+func (c *capSet) Clear() {
+	c.mu.Lock()
+	c.caps = make(map[string]bool)
+	c.mu.Unlock()
+}
+
 func (c *capSet) Add(caps ...string) {
 	c.mu.Lock()
 	for _, cap := range caps {
